@@ -526,6 +526,32 @@ class TempoSuite(PairedSuite):
         return None
 
 
+    def oracle_C15(self, case, out):
+        """The sessions led by a human (also those that are the SECOND touch of a rhythm object that followed another
+        tempo before): until the regression has four strikes to go on, Wheatley's blows of the first row are placed
+        from the leader's actual strike at the CONFIGURED interval."""
+        orc = case["oracle"]
+        if "trace" not in out["a"] or orc.get("mode") == "fixed":
+            return None
+        hb = sorted(((r, p, b, Fraction(t)) for r, p, b, t in orc["human_blows"]), key=lambda x: x[3])
+        if not hb or (hb[0][0], hb[0][1]) != (0, 0):
+            return None                                   # Wheatley leads
+        n, iv = orc["n"], Fraction(orc["iv"])
+        after = Fraction(orc.get("after", 0))
+        t_lead = hb[0][3]
+        t_fourth = hb[3][3] if len(hb) > 3 else None
+        for (r, p, b, t) in wheatley_strikes(out["a"]):
+            if t < after or r != 0:
+                continue
+            if t_fourth is not None and t >= t_fourth:
+                break                                     # the regression legitimately takes over
+            if abs(t - (t_lead + iv * p)) > Fraction(11, 1000) + TOL + Fraction(orc.get("jitter_us", 0), 10 ** 6):
+                return (f"first row, place {p}: struck {float(t - t_lead):.4f}s after the human leader, the configured "
+                        f"interval puts it at {float(iv * p):.4f}s"
+                        + (" (second touch; the first was rung at another tempo)" if after else ""))
+        return None
+
+
 class HoldUpSuite(PairedSuite):
     """C14 first clause: a hold-up of D delays everything after it by D (within one polling step)."""
     name = "hold_up"
